@@ -277,4 +277,8 @@ def main(tier, seed):
         level2.standin_c06(rep, tier, seed)
     except ImportError:
         rep.notes.append("level-2 term-exact stand-in not built")
+    # level-2 evaluation for all path lengths and pixel counts (checks/l2sym.py): element provenance: own source, own path index, own pixel
+    from checks import l2sym
+
+    l2sym.report_fails(rep, l2sym.run(rep, tier, fams=['B', "B'", 'D'], stride={'B': 3, 'D': 2}))
     return rep.finish()
